@@ -309,7 +309,7 @@ PLANS['C20'] = Plan(
 )
 
 PLANS['C08'] = Plan(
-    'C08', ['src/multi_pass_workflow_coordinator.py::_MultiPassWorkflowCoordinator.execute', AR + 'check_overlap',
+    'C08', ['src/multi_pass_workflow_coordinator.py::_MultiPassWorkflowCoordinator.execute', 'src/multi_pass_workflow_coordinator.py::_MultiPassWorkflowCoordinator.saveAdditionalOutput', AR + 'check_overlap',
             'src/alignment/alignment_results.py::AlignmentResults.filterOutSubsequentAlignmentsForSingleQuery',
             'src/alignment/alignment_results.py::AlignmentResults.resolve', 'src/alignment/alignment_results.py::AlignmentResultRow.resolve',
             SGP + 'AlignmentSegment.checkForConflicts', SGP + '_SegmentPairWithConflict.resolveConflict', SGP + '_SegmentPairWithNoConflict.resolveConflict',
